@@ -156,13 +156,13 @@ def summarize(conn, out):
 # path 1: async generators over (optionally scripted) sockets
 # ---------------------------------------------------------------------------
 def play_gen(name, scripts=None, order=None, mitm=None, prepare=None,
-             tweak=None):
+             tweak=None, link=None):
     client, server, f = build(name)
     if tweak is not None:
         tweak(client, server)
     DET.reseed("C14", name)
     p = sc.connect(client, server, scripts=scripts, order=order, mitm=mitm,
-                   max_steps=400000, prepare=prepare)
+                   max_steps=400000, prepare=prepare, link=link)
     res = {"c": summarize(p.c, p.co), "s": summarize(p.s, p.so),
            "steps": []}
     if p.verdict in ("spin", "budget"):
@@ -257,10 +257,14 @@ def asm_pump(machines, link, max_steps=400000):
                       m.result)
             DET.current = side
             try:
+                # select()-like: a write event whenever one is wanted, a read
+                # event only when something can actually be read
                 if m.wantsWriteEvent():
                     m.inWriteEvent()
-                else:
+                elif link.inp[side].q or link.inp[side].eof:
                     m.inReadEvent()
+                else:
+                    continue
             except Exception as e:      # noqa - outcome under comparison
                 errs[side] = e
             finally:
@@ -695,7 +699,42 @@ def check_reframe(case, base, labels):
             return [raw]
         state["changed"] = True
         return [hdr3 + len(x).to_bytes(2, "big") + x for x in parts if x]
-    res, p = play_gen(name, mitm=mitm)
+    if mode == "coalesce":
+        # the opposite re-framing: consecutive plaintext handshake records
+        # of one flight merged into a single record (how other stacks send
+        # their flights)
+        from vlib.wire import Link
+
+        def batch(direction, recs):
+            out = []
+            acc = None
+            for rec in recs:
+                raw = rec["hdr"] + rec["body"]
+                if rec["type"] == 20:
+                    state["enc"][direction] = True
+                plain = rec["type"] == 22 and not state["enc"][direction] \
+                    and not (version13 and rec["off"] > 0)
+                if plain and acc is not None and \
+                        len(acc[1]) + len(rec["body"]) <= 2 ** 14 and \
+                        acc[0] == rec["hdr"][:3]:
+                    acc[1] += rec["body"]
+                    state["changed"] = True
+                    continue
+                if acc is not None:
+                    out.append(acc[0] + len(acc[1]).to_bytes(2, "big") +
+                               bytes(acc[1]))
+                    acc = None
+                if plain:
+                    acc = [rec["hdr"][:3], bytearray(rec["body"])]
+                else:
+                    out.append(raw)
+            if acc is not None:
+                out.append(acc[0] + len(acc[1]).to_bytes(2, "big") +
+                           bytes(acc[1]))
+            return out
+        res, p = play_gen(name, link=Link(batch_mitm=batch))
+    else:
+        res, p = play_gen(name, mitm=mitm)
     if not state["changed"]:
         return good(nt=False, labels=labels + ["not-applied"])
     keys = ["c", "s", "steps"]
@@ -747,7 +786,8 @@ def cases(draw, tier):
         c["sizes"] = {"c": [draw(sizes_list), draw(sizes_list)],
                       "s": [draw(sizes_list), draw(sizes_list)]}
     else:
-        c["mode"] = draw(st.sampled_from(["bytes", "cuts", "cuts"]))
+        c["mode"] = draw(st.sampled_from(["bytes", "cuts", "cuts",
+                                          "coalesce"]))
         c["cuts"] = draw(st.lists(st.integers(0, 5000), min_size=1,
                                   max_size=6))
     return c
@@ -779,6 +819,7 @@ def explicit(tier, seed):
                          "s": [[7, 1], [1, 1000]]}}
         yield {"sc": name, "path": "thread", "sizes": {}}
         yield {"sc": name, "path": "reframe", "mode": "bytes"}
+        yield {"sc": name, "path": "reframe", "mode": "coalesce"}
         yield {"sc": name, "path": "reframe", "mode": "cuts",
                "cuts": [3, 4, 5, 70 + seed]}
     # sender-side fragmentation sweep: every record size a handshake message
